@@ -371,7 +371,7 @@ def item_values(d, ep, inp, out, x):
     k = out.get("k")
     if k in ("skip", "noep"):
         return vals
-    if ep in ("parse", "deser"):
+    if ep in ("parse", "deser", "deser_any"):
         inner = x["inner"]
         if inner["ok"]:
             vals.append(dec_value(d, inner["v"][0]))
@@ -465,7 +465,7 @@ def model_item(d, proj, ep, inp, out, x):
     env = model_env(x) if d["fam"] == "string" else None
     if ep == "default":
         return {"ok": True, "v": []}, model_out(d, proj, out), env
-    if ep in ("parse", "deser"):
+    if ep in ("parse", "deser", "deser_any"):
         inner = x["inner"]
         mi = {"ok": inner["ok"], "v": [proj.model(dec_value(d, inner["v"][0]))] if inner["ok"] else []}
         if d["fam"] == "string" and not inner["ok"]:
